@@ -258,7 +258,6 @@ func (e *Engine) knownFunction(name string) bool {
 	return e.knownFns[name]
 }
 
-
 // Field renames.  Contracts name struct fields (in expressions, in type clauses, in waive
 // patterns and through obligation names in the known-findings file).  The bindings record
 // the fields of every struct type of the module; a recorded field that the type no longer
